@@ -12,7 +12,7 @@ import gen_session as G  # noqa: E402
 import impl_session as S  # noqa: E402
 
 LEAN_MODULES = ["KmipModel.Props.C17"]
-RULE = ("FULL PRODUCT of: certificate (absent; 0/1/2 common names x extended key usage absent / serverAuth only / "
+RULE = ("FULL PRODUCT of: certificate (absent; 0/1/2 common names in separate RDNs or 2 in one multi-valued RDN x extended key usage absent / serverAuth only / "
         "clientAuth / serverAuth+clientAuth) x enable_tls_client_auth on/off x plug-in configuration (none; disabled "
         "in three spellings; unsupported name; SLUGS block without url; every list of 1-3 enabled SLUGS blocks each "
         "answering ok / 404 user / 404 groups / unreachable; lists mixing disabled and unsupported blocks; odd "
@@ -82,7 +82,7 @@ def plugin_configs():
 
 def cert_shapes():
     out = [None]
-    for n in (0, 1, 2):
+    for n in (0, 1, 2, 3):          # 3 = two common names in one multi-valued RDN
         for e in S.EKU_SHAPES:
             out.append({"cns": n, "eku": e})
     return out
@@ -401,6 +401,21 @@ def execute(ctx, cfgs, with_model=True):
                         if with_model and o_k["obs"] is not None:
                             lines.append(json.dumps(model_line(rig, cfg_k, o_k, qverdict)))
                             impls.append((impl_event(o_k, qframe), cfg_k))
+        # two clients whose certificates (different subjects, different issuers) carry the SAME serial number, one after
+        # the other on the same server process: each is served under its own common name
+        st["same_serial_sessions"] = 0
+        for order in (("alice", "bob", "alice"), ("bob", "alice"), ("carol", "alice", "carol", "bob")):
+            for user in order:
+                der = S.make_cert((user,), "client", serial=424242)
+                res = rig.run_session([qframe], der, tls=True, digests=False)
+                st["same_serial_sessions"] += 1
+                calls = [c for it in res["iterations"] if it["frame"] is not None for c in it["calls"]]
+                got = calls[0]["identity"][0] if calls else None
+                if got != user:
+                    ctx.report("c17:identity-passed-differs:same-serial",
+                               "a client whose certificate says CN=%s (serial 424242, as the certificate of another client "
+                               "served before) was served as %r" % (user, got),
+                               {"kind": "same-serial", "order": list(order), "user": user})
         # outside the property's quantifier (see ASSUMPTIONS), observed and counted: a certificate blob the
         # `cryptography` package cannot load.  Whatever the answer, request processing must not be entered.
         frame = cfgs[0]["request"][1] if cfgs else requests_pool()[0][1]
@@ -446,6 +461,7 @@ def run(ctx):
         "traces_validated_against_impl": st["n"], "model_divergences": len(divs), "full_product": True,
         "unloadable_certificate_observation": st.get("unloadable_certificate"),
         "requests_on_connections_with_changing_directory": st.get("phased_frames"),
+        "sessions_with_same_serial_certificates": st.get("same_serial_sessions"),
     })
     if divs:
         n0 = len(ctx.violations)
